@@ -337,6 +337,11 @@ func genJSONMatrix() []genSpec {
 
 // thoroughCorpusFor builds the generated corpus a property's thorough tier adds.
 func thoroughCorpusFor(r *Report, prop string) (string, func()) {
+	// exploration hook (not used by the registered commands): analyse an extra directory of specs
+	if d := os.Getenv("VERIF_EXTRA_CORPUS"); d != "" {
+		r.Analysed["extra_corpus_from_env"] = d
+		return d, func() {}
+	}
 	if !isThorough(r) {
 		return "", func() {}
 	}
